@@ -676,7 +676,8 @@ def jobs():
     except ValueError:
         n = 0
     if n <= 0:
-        n = max(1, min(6, (os.cpu_count() or 2) // 2))
+        # single process: quick ~1 min, thorough ~30 min; the default keeps thorough under ~6 min on >= 6 cores
+        n = max(1, min(6, os.cpu_count() or 1))
     return n
 
 
